@@ -30,8 +30,10 @@ MANIFEST = {
             "instance constants, af.Array, unary ModifiedPrior. Trusted: Coq kernel + vm_compute; the harness's raw __dict__ abstraction of live models (ids compared up to a strictly "
             "monotone renumbering, for dict up to any injective one); SQLite/SQLAlchemy/json/pickle themselves (covered by "
             "correspondence only). Partial: the equivalence theorems for the dict form exclude components without free parameters "
-            "(written as 'instance': finding) and, for path-keyed statements, arithmetic priors (names not stored: finding). Not "
-            "modelled in Coq (oracle only): af.Array models and unary ModifiedPrior (-p); width_modifier / labels / Model ids are "
+            "that ARE written as exact instances (correspondence only; those with tuple / extra attributes are written as models since "
+            "0b56c35 and are covered, C08_iter_next) and, for path-keyed statements, arithmetic priors (operand names not stored: the one "
+            "remaining known finding; C08_round_trip_arith / C08_iter_arith cover them up to those names). Not modelled in Coq (oracle "
+            "only): af.Array models and unary ModifiedPrior (-p; storable since 8d274ac); width_modifier / labels / Model ids are "
             "not part of the property. Known findings of the tree are class-matched (known_findings/C08.json).",
     "technique": "machine-checked proof in Coq (hand-written codec model over the C01 tree; refinement of the stateful decoder, invariants, "
                  "induction over nested trees) + vm_compute correspondence",
@@ -767,14 +769,6 @@ def classes_for(c, step_index, clause, where=()):
     # operand attribute names of arithmetic priors: ONLY a path difference that vanishes when the operand names are blinded
     if clause == "paths-arith-names" and "arith" in feats and form in ("dict", "db"):
         out.append("arith-names")
-    # a component without free parameters written as "instance": only differences located inside such a component
-    zp = zero_prior_paths(c)
-    under_zero = any(where[:len(z)] == z for z in zp)
-    if form == "dict":
-        if clause == "exception:TypeError" and "zeroprior-extra" in feats:
-            out.append("dict-zero-prior-instance")
-        if clause in ("instance-pos", "structure-pos", "instance-strict") and under_zero and "zeroprior-tuple" in feats:
-            out.append("dict-zero-prior-instance")
     return out
 
 
@@ -1187,7 +1181,7 @@ def run_array_oracle(ctx, c, r):
         form = c["steps"][0]["form"]
         ctx.count_case(c, True, kind="modified:" + form)
         ctx.oracle["cases"] += 1
-        classes = ["modified-prior"] if form in ("dict", "db") else []
+        classes = []
         if "exc" in r["steps"][0]:
             ctx.oracle["failures"] += 1
             ctx.failure("oracle", "modified model: %s round trip raised %s" % (form, r["steps"][0]["exc"]), c, classes=classes, impl=r)
